@@ -2,12 +2,14 @@
    correspondence check (inputs and outputs are lists of integers; floats travel as
    IEEE-754 bit patterns).  Definitions only. *)
 From V Require Export Model.Kalman.
+From V Require Import Gen.ConstKalman.
 Close Scope float_scope.
 Open Scope Z_scope.
 
+Definition FROM_SECS : float -> Z := from_seconds_f (TT_FROM_SECONDS_ROUNDS =? 1).
 Definition FloatOps : NumOps float :=
   mkNum float (fun f => f) PrimFloat.add PrimFloat.sub PrimFloat.mul PrimFloat.div PrimFloat.sqrt
-        PrimFloat.opp PrimFloat.ltb PrimFloat.leb fmax PrimFloat.is_nan ffmod of_i64 from_seconds_f.
+        PrimFloat.opp PrimFloat.ltb PrimFloat.leb fmax PrimFloat.is_nan ffmod of_i64 FROM_SECS.
 
 Definition fb := of_bits.
 Definition tb := to_bits.
@@ -111,7 +113,7 @@ Definition run (c : Z * list Z) : list Z :=
   | 7 => enc_state (fst (k_frequency_steering FloatOps FUEL (dec_state a) (nthz a 7) (fb (nthz a 8)) (fb (nthz a 9))
                                               (dec_period (nthz a 10))))
   | 8 => [tb (fst (chi_1 FloatOps (fb (nthz a 1)) (fb (nthz a 0))))]
-  | 9 => [from_seconds_f (fb (nthz a 0))]
+  | 9 => [FROM_SECS (fb (nthz a 0))]
   | 10 => [tb (fst (to_seconds FloatOps (nthz a 0)))]
   | 11 => [fst (root_dispersion FloatOps (fb (nthz a 0)) (fb (nthz a 1)) (fb (nthz a 2)) (fb (nthz a 3)) (nthz a 4) (nthz a 5))]
   | 12 => [tb (fst (buf_mean FloatOps (map fb a))); tb (fst (buf_variance FloatOps (map fb a)))]
